@@ -9,6 +9,7 @@ import Scico.Proofs.DriverCtl
 import Scico.Proofs.DriverMore
 import Scico.Proofs.DriverDisp
 import Scico.Proofs.DriverClock
+import Scico.Proofs.DriverClockAdvance
 import Scico.Proofs.DriverRaise
 import Scico.Proofs.DriverBridge
 import Scico.Proofs.DriverNan
@@ -348,6 +349,42 @@ example :
       Clock.specElapsed c h none true 10 = some 6 ∧ Clock.specElapsed c h (some 2) true 10 = none ∧
       Clock.specTotal (Clock.labelHistory c (h.take 2) 1) 0 = 3 ∧
       ((Clock.Timer.init c.init c.dflt c.all).run h).elapsed (some 1) true 10 = some 6 := by
+  decide
+
+/-- **Between two calls the timer is an ideal stop-watch.**  For every configuration, every call
+    history (any argument forms, `KeyError`s included) over any additive commutative group of clock
+    values, and two query times `now`, `now'` with no call in between: `Timer.elapsed(l, total=True)`
+    of a known label advances by exactly `now' - now` when the last event the label received since
+    its last reset is a `start`, and does not change at all otherwise (stopped, reset, never
+    started).  With an ordered clock the reading is therefore non-decreasing in the query time. -/
+theorem C15_timer_advance {L τ : Type} [DecidableEq L] [AddCommGroup τ]
+    (c : Cfg L) (h : List (Clock.Call L τ)) (now now' : τ) (l : L) (hk : Clock.known c h l = true) :
+    ∃ a b, ((Clock.Timer.init c.init c.dflt c.all).run h).elapsed (some l) true now = some a ∧
+      ((Clock.Timer.init c.init c.dflt c.all).run h).elapsed (some l) true now' = some b ∧
+      b - a = if Clock.running (Clock.labelHistory c h l) then now' - now else 0 := by
+  refine ⟨Clock.specTotal (Clock.labelHistory c h l) now, Clock.specTotal (Clock.labelHistory c h l) now', ?_, ?_,
+    Clock.specTotal_advance _ now now'⟩
+  · rw [Clock.timer_refines_stopwatch]; simp [Clock.specElapsed, hk]
+  · rw [Clock.timer_refines_stopwatch]; simp [Clock.specElapsed, hk]
+
+theorem C15_timer_mono {L τ : Type} [DecidableEq L] [AddCommGroup τ] [LinearOrder τ] [IsOrderedAddMonoid τ]
+    (c : Cfg L) (h : List (Clock.Call L τ)) {now now' : τ} (hn : now ≤ now') (l : L) :
+    Clock.specTotal (Clock.labelHistory c h l) now ≤ Clock.specTotal (Clock.labelHistory c h l) now' :=
+  Clock.specTotal_mono _ hn
+
+-- non-vacuity: label 1 is running after the history (last event a start at 6): reading 6 at 10, 11 at 15;
+-- label 3 (started at -1, stopped at 0 by stop-all) is stopped: reading 1 at both times
+example :
+    let c : Cfg Nat := ⟨.one 1, 0, 9⟩
+    let h : List (Clock.Call Nat Int) :=
+      [⟨-5, .start, .one 1⟩, ⟨-2, .stop, .many [1, 7]⟩, ⟨-1, .start, .one 3⟩, ⟨0, .stop, .one 9⟩, ⟨1, .reset, .one 1⟩,
+       ⟨4, .start, .many [1, 0]⟩, ⟨6, .start, .one 1⟩]
+    Clock.known c h 1 = true ∧ Clock.running (Clock.labelHistory c h 1) = true ∧
+      ((Clock.Timer.init c.init c.dflt c.all).run h).elapsed (some 1) true 10 = some 6 ∧
+      ((Clock.Timer.init c.init c.dflt c.all).run h).elapsed (some 1) true 15 = some 11 ∧
+      Clock.known c h 3 = true ∧ Clock.running (Clock.labelHistory c h 3) = false ∧
+      ((Clock.Timer.init c.init c.dflt c.all).run h).elapsed (some 3) true 10 = some 1 ∧
+      ((Clock.Timer.init c.init c.dflt c.all).run h).elapsed (some 3) true 15 = some 1 := by
   decide
 
 /-- **One timer, two transcriptions.**  On every non-decreasing integer-tick history the `Nat`
